@@ -101,7 +101,7 @@ pub fn explore(ctx: &Ctx) {
     ctx.assume("policy None throughout (conventional computation)");
     let all = d_all();
     let lats = [0.0, 30.0, -30.0, 45.0, -45.0, 55.0, -55.0, 60.0, -60.0];
-    let zs: Vec<(f64, f64)> = if quick { vec![(-77.2086, -5.0), (39.8233, 3.0), (180.0, 12.0)] } else { vec![(-180.0, -12.0), (-77.2086, -5.0), (0.0, 0.0), (39.8233, 3.0), (82.5, 5.5), (180.0, 12.0)] };
+    let zs: Vec<(f64, f64)> = if false { vec![(-77.2086, -5.0), (39.8233, 3.0), (180.0, 12.0)] } else { vec![(-180.0, -12.0), (-77.2086, -5.0), (0.0, 0.0), (39.8233, 3.0), (82.5, 5.5), (180.0, 12.0)] };
     let mut sites = vec![];
     for &lat in &lats {
         for &(lon, gmt) in &zs {
